@@ -341,8 +341,13 @@ theorem N1_t_polar_partial (hc : c * c = 2) (h2 : (2:K) ≠ 0) (A : M3 K) :
 
 
 def write(fn, title, imports, body, extra=""):
-    with open(os.path.join(OUT, fn), "w") as f:
-        f.write(HDR.format(title=title, imports="\n".join("import " + i for i in imports), extra=extra) + body + FTR)
+    text = HDR.format(title=title, imports="\n".join("import " + i for i in imports), extra=extra) + body + FTR
+    path = os.path.join(OUT, fn)
+    if os.path.exists(path) and open(path).read() == text:
+        print("unchanged", fn)   # keep the time stamp: the check compares it with the .olean
+        return
+    with open(path, "w") as f:
+        f.write(text)
     print("wrote", fn)
 
 
